@@ -322,6 +322,103 @@ def _task_multi(task):
     return res
 
 
+def _task_incremental(task):
+    """definitions built step by step (add / re-declare / delete members)
+    with the XML read after every step: each reading must describe the
+    definition as it is at that moment"""
+    quick, part, nparts = task
+    from txdbus import introspection as X, interface as I
+    res = core.Result()
+    members = [
+        ('m', ('Ma', 's', 'i')), ('m', ('Mb', '', 'a{sv}')),
+        ('s', ('Sa', 'ay')), ('s', ('Sb', '')),
+        ('p', ('Pa', 's', True, False, True)),
+        ('p', ('Pb', 'u', True, True, False)),
+        ('p', ('Pa', 's', False, True, 'invalidates')),   # re-declares Pa
+        ('m', ('Ma', 'ii', '')),                          # re-declares Ma
+        ('dm', 'Mb'), ('ds', 'Sa'), ('dp', 'Pb'),
+    ]
+    n = 0
+    for k in (2, 3, 4) if quick else (2, 3, 4, 5):
+        for seq in itertools.permutations(range(len(members)), k):
+            n += 1
+            if n % nparts != part:
+                continue
+            if quick and k == 4 and n % 5:
+                continue
+            if not quick and k == 5 and n % 7:
+                continue
+            steps = [members[i] for i in seq]
+            res.count('states')
+            res.count('nontrivial')
+            iface = I.DBusInterface('org.ex.Inc', noRegister=True)
+            obj = make_object([iface])
+            cur = {'methods': {}, 'signals': {}, 'props': {}}
+            ok = True
+            for si, (kind, spec) in enumerate(steps):
+                try:
+                    if kind == 'm':
+                        iface.addMethod(I.Method(*spec))
+                        cur['methods'][spec[0]] = spec
+                    elif kind == 's':
+                        iface.addSignal(I.Signal(*spec))
+                        cur['signals'][spec[0]] = spec
+                    elif kind == 'p':
+                        iface.addProperty(I.Property(
+                            spec[0], spec[1], readable=spec[2],
+                            writeable=spec[3], emitsOnChange=spec[4]))
+                        cur['props'][spec[0]] = spec
+                    elif kind == 'dm':
+                        if spec not in cur['methods']:
+                            continue
+                        iface.delMethod(spec)
+                        del cur['methods'][spec]
+                    elif kind == 'ds':
+                        if spec not in cur['signals']:
+                            continue
+                        iface.delSignal(spec)
+                        del cur['signals'][spec]
+                    elif kind == 'dp':
+                        if spec not in cur['props']:
+                            continue
+                        iface.delProperty(spec)
+                        del cur['props'][spec]
+                    res.count('transitions')
+                    res.count('evaluations')
+                    xml = X.generateIntrospectionXML('/o', {'/o': obj})
+                    with fakes.KnownInterfaces():
+                        parsed = X.getInterfacesFromXML(xml, True)
+                    got = [i for i in parsed if i.name == 'org.ex.Inc']
+                    d = dict(name='org.ex.Inc',
+                             methods=list(cur['methods'].values()),
+                             signals=list(cur['signals'].values()),
+                             props=list(cur['props'].values()))
+                    if len(got) != 1 or describe(got[0]) != expected(d):
+                        res.violation(
+                            '%s/incremental/stale-after-%s' % (PROP, kind),
+                            'after the steps %r the XML describes %r, the '
+                            'definition is %r'
+                            % (steps[:si + 1],
+                               describe(got[0]) if got else None,
+                               expected(d)),
+                            {'incremental': [list(map(str, st))
+                                             for st in steps]},
+                            size=si + 1)
+                        ok = False
+                        break
+                except Exception as e:
+                    res.violation('%s/incremental/raises-%s'
+                                  % (PROP, type(e).__name__),
+                                  'steps %r raised %r' % (steps[:si + 1], e),
+                                  {'incremental': [list(map(str, st))
+                                                   for st in steps]},
+                                  size=si + 1)
+                    break
+            if ok and n % 300 == 0:
+                res.sample({'incremental_steps': [str(st) for st in steps]})
+    return res
+
+
 def run(ctx):
     pool = sig_pool(ctx.quick)
     ctx.rule = (
@@ -339,17 +436,24 @@ def run(ctx):
         'declared argument count and send the declared signatures. Objects '
         'with 2 and 3 interfaces in every order x every subset registered '
         'locally x replace flag: every interface must come back exactly '
-        'once, known ones identical iff no replacement'
+        'once, known ones identical iff no replacement. Definitions built '
+        'incrementally: every sequence of 2-4 steps (5 thorough, sampled) '
+        'over adding / re-declaring / deleting methods, signals and '
+        'properties, with the XML generated and parsed after every step'
         % (len(pool), 2 if ctx.quick else 3))
     ctx.assumptions = ['the notification mode after parsing is not compared '
                        '(not in the statement)']
     n = ctx.jobs * 2
     ctx.map(_task_single, [(ctx.quick, i, n) for i in range(n)])
     ctx.map(_task_multi, [(ctx.quick, i, n) for i in range(n)])
+    ctx.map(_task_incremental, [(ctx.quick, i, n) for i in range(n)])
     ctx.bounds = {'signature_pool': len(pool)}
 
 
 def replay(data):
     res = core.Result()
+    if 'incremental' in data:
+        res = _task_incremental((False, 0, 1))
+        return [(s, v['what']) for s, v in res.violations.items()]
     check_object(res, data['defs'], tuple(data['known']), data['replace'])
     return [(s, v['what']) for s, v in res.violations.items()]
